@@ -226,6 +226,19 @@ fn one_history(seed: u64, steps: usize) {
         // contexts whose registration was removed keep their frames, but are no longer in `ctxs`
         let mut scan_ctxs = ctxs.clone();
         for m in model.values() { if !scan_ctxs.contains(&m.ctx) { scan_ctxs.push(m.ctx); } }
+        // Timeouts are upper bounds: if the views disagree, drain the collector again and look again (up to 5 times, 100 ms apart)
+        // before calling it a failure; a disagreement that persists is reported by the plain call below.
+        for attempt in 0..5 {
+            let hook = std::panic::take_hook();
+            std::panic::set_hook(Box::new(|_| {}));
+            let ok = std::panic::catch_unwind(std::panic::AssertUnwindSafe(|| check_all(&store, &model, &scan_ctxs, &what))).is_ok();
+            std::panic::set_hook(hook);
+            if ok { break; }
+            eprintln!("vx_store_model: [{}] views disagreed at the quiescent point (attempt {}), draining again", what, attempt + 1);
+            std::thread::sleep(Duration::from_millis(100));
+            let _ = store.read_sync(None, None, None).count();
+            rt.block_on(store.wait_for_gc());
+        }
         check_all(&store, &model, &scan_ctxs, &what);
         // C20: exporting the stored stream and importing it into an empty store, in ANY order, reproduces it exactly (every 4th history,
         // at its last step; newest-first is the order that exposes collector / index side effects of an import)
